@@ -1,2 +1,4 @@
 import AriesVerif.C11.Props
 import AriesVerif.C11.Drv
+import AriesVerif.C15.Props
+import AriesVerif.C15.Drv
